@@ -259,6 +259,17 @@ def afind(model, fn, src, root=None):
                 for f in ("body", "orelse", "finalbody"):
                     lst = getattr(n, f, None)
                     if isinstance(lst, list) and lst and isinstance(lst[0], ast.stmt):
+                        if any(_is_ellipsis_stmt(x) for x in p):
+                            # a `...` statement stands for any run: the match may span any window of the block
+                            for i in range(len(lst)):
+                                hit = False
+                                for j in range(len(lst), i, -1):
+                                    b = {}
+                                    if _match(p, lst[i:j], b):
+                                        out.append((lst[i], b))
+                                        hit = True
+                                        break
+                            continue
                         for i in range(0, len(lst) - k + 1):
                             b = {}
                             if _match(p, lst[i:i + k], b):
